@@ -50,4 +50,100 @@ theorem src_offset_local_unix_rs_fn_new : C18_src_offset_local_unix_rs_fn_new =
 theorem src_offset_local_unix_rs_fn_offset : C18_src_offset_local_unix_rs_fn_offset =
     ["v1", "&", "NaiveDateTime", "v2", "bool", "->", "MappedLocalTime", "<", "FixedOffset", ">", "TZ_INFO", "with(", "|", "v3", "|", "v3", "borrow_mut(", "get_or_insert_with(", "Cache", "v4", "offset(", "*", "v1", "v2", "§", "&", "self", "v1", "NaiveDateTime", "v2", "bool", "->", "MappedLocalTime", "<", "FixedOffset", ">", "v3", "SystemTime", "now(", "match", "v3", "duration_since(", "self", "v4", "Ok(", "v1", "if", "v1", "as_secs(", "<", "1", "=>", "Ok(", "v5", "|", "Err(", "v5", "=>", "v6", "v7", "var(", "\"TZ\"", "ok(", "v8", "v6", "as_deref(", "v9", "Source", "new(", "v8", "v10", "match(", "&", "self", "v11", "&", "v9", "Source", "Environment", "..", "Source", "LocalTime", "..", "|", "Source", "LocalTime", "..", "Source", "Environment", "..", "=>", "true", "Source", "LocalTime", "v12", "v13", "Source", "LocalTime", "v12", "if", "v13", "!=", "v12", "=>", "true", "Source", "Environment", "v14", "v15", "Source", "Environment", "v14", "if", "v15", "!=", "v14", "=>", "true", "v5", "=>", "false", "if", "v10", "self", "v16", "current_zone(", "v8", "self", "v4", "v3", "self", "v11", "v9", "if", "!", "v2", "v17", "self", "v16", "find_local_time_type(", "v1", "and_utc(", "timestamp(", "expect(", "\"…\"", "offset(", "return", "match", "FixedOffset", "east_opt(", "v17", "Some(", "v17", "=>", "MappedLocalTime", "Single(", "v17", "None", "=>", "MappedLocalTime", "None", "self", "v16", "find_local_time_type_from_local(", "v1", "expect(", "\"…\"", "and_then(", "|", "v18", "|", "FixedOffset", "east_opt(", "v18", "offset("] := by decide +kernel
 
+/-- callee src/datetime/mod.rs:fn from_naive_utc_and_offset -/
+theorem callee_src_datetime_mod_rs_fn_from_naive_utc_and_offset : C18_callee_src_datetime_mod_rs_fn_from_naive_utc_and_offset =
+    ["v1", "NaiveDateTime", "v2", "Tz", "Offset", "->", "DateTime", "<", "Tz", ">", "DateTime", "v1", "v2"] := by decide +kernel
+
+/-- callee src/naive/datetime/mod.rs:fn and_utc -/
+theorem callee_src_naive_datetime_mod_rs_fn_and_utc : C18_callee_src_naive_datetime_mod_rs_fn_and_utc =
+    ["&", "self", "->", "DateTime", "<", "Utc", ">", "DateTime", "from_naive_utc_and_offset(", "*", "self", "Utc"] := by decide +kernel
+
+/-- callee src/offset/fixed.rs:fn east_opt -/
+theorem callee_src_offset_fixed_rs_fn_east_opt : C18_callee_src_offset_fixed_rs_fn_east_opt =
+    ["v1", "i32", "->", "Option", "<", "FixedOffset", ">", "if", "-", "86400", "<", "v1", "&&", "v1", "<", "86400", "Some(", "FixedOffset", "v2", "v1", "else", "None"] := by decide +kernel
+
+/-- callee src/offset/local/tz_info/parser.rs:fn peek -/
+theorem callee_src_offset_local_tz_info_parser_rs_fn_peek : C18_callee_src_offset_local_tz_info_parser_rs_fn_peek =
+    ["&", "self", "->", "Option", "<", "&", "u8", ">", "self", "remaining(", "first("] := by decide +kernel
+
+/-- callee src/offset/local/tz_info/parser.rs:fn read_be_u32 -/
+theorem callee_src_offset_local_tz_info_parser_rs_fn_read_be_u32 : C18_callee_src_offset_local_tz_info_parser_rs_fn_read_be_u32 =
+    ["&", "self", "->", "Result", "<", "u32", "Error", ">", "v1", "0", "4", "v1", "copy_from_slice(", "self", "read_exact(", "4", "?", "Ok(", "u32", "from_be_bytes(", "v1"] := by decide +kernel
+
+/-- callee src/offset/local/tz_info/parser.rs:fn read_exact -/
+theorem callee_src_offset_local_tz_info_parser_rs_fn_read_exact : C18_callee_src_offset_local_tz_info_parser_rs_fn_read_exact =
+    ["&", "self", "v1", "usize", "->", "Result", "<", "&", "u8", "v2", "Error", ">", "match(", "self", "v3", "get(", "..", "v1", "self", "v3", "get(", "v1", "..", "Some(", "v4", "Some(", "v3", "=>", "self", "v3", "v3", "self", "v5", "+=", "v1", "Ok(", "v4", "v6", "=>", "Err(", "v2", "Error", "from(", "ErrorKind", "UnexpectedEof"] := by decide +kernel
+
+/-- callee src/offset/local/tz_info/parser.rs:fn read_int -/
+theorem callee_src_offset_local_tz_info_parser_rs_fn_read_int : C18_callee_src_offset_local_tz_info_parser_rs_fn_read_int =
+    ["<", "T", "FromStr", "<", "Err", "ParseIntError", ">>", "&", "self", "->", "Result", "<", "T", "Error", ">", "v1", "self", "read_while(", "u8", "v2", "?", "Ok(", "str", "from_utf8(", "v1", "?", "parse(", "?"] := by decide +kernel
+
+/-- callee src/offset/local/tz_info/parser.rs:fn read_optional_tag -/
+theorem callee_src_offset_local_tz_info_parser_rs_fn_read_optional_tag : C18_callee_src_offset_local_tz_info_parser_rs_fn_read_optional_tag =
+    ["&", "self", "v1", "&", "u8", "->", "Result", "<", "bool", "v2", "Error", ">", "if", "self", "v3", "starts_with(", "v1", "self", "read_exact(", "v1", "len(", "?", "Ok(", "true", "else", "Ok(", "false"] := by decide +kernel
+
+/-- callee src/offset/local/tz_info/parser.rs:fn read_tag -/
+theorem callee_src_offset_local_tz_info_parser_rs_fn_read_tag : C18_callee_src_offset_local_tz_info_parser_rs_fn_read_tag =
+    ["&", "self", "v1", "&", "u8", "->", "Result", "<", "v2", "Error", ">", "if", "self", "read_exact(", "v1", "len(", "?", "==", "v1", "Ok(", "else", "Err(", "v2", "Error", "from(", "ErrorKind", "InvalidData"] := by decide +kernel
+
+/-- callee src/offset/local/tz_info/parser.rs:fn read_until -/
+theorem callee_src_offset_local_tz_info_parser_rs_fn_read_until : C18_callee_src_offset_local_tz_info_parser_rs_fn_read_until =
+    ["<", "F", "Fn(", "&", "u8", "->", "bool", ">", "&", "self", "v1", "F", "->", "Result", "<", "&", "u8", "v2", "Error", ">", "match", "self", "v3", "iter(", "position(", "v1", "None", "=>", "self", "read_exact(", "self", "v3", "len(", "Some(", "v4", "=>", "self", "read_exact(", "v4"] := by decide +kernel
+
+/-- callee src/offset/local/tz_info/parser.rs:fn read_while -/
+theorem callee_src_offset_local_tz_info_parser_rs_fn_read_while : C18_callee_src_offset_local_tz_info_parser_rs_fn_read_while =
+    ["<", "F", "Fn(", "&", "u8", "->", "bool", ">", "&", "self", "v1", "F", "->", "Result", "<", "&", "u8", "v2", "Error", ">", "match", "self", "v3", "iter(", "position(", "|", "v4", "|", "!", "f(", "v4", "None", "=>", "self", "read_exact(", "self", "v3", "len(", "Some(", "v5", "=>", "self", "read_exact(", "v5"] := by decide +kernel
+
+/-- callee src/offset/local/tz_info/parser.rs:fn remaining -/
+theorem callee_src_offset_local_tz_info_parser_rs_fn_remaining : C18_callee_src_offset_local_tz_info_parser_rs_fn_remaining =
+    ["&", "self", "->", "&", "u8", "self", "v1"] := by decide +kernel
+
+/-- callee src/offset/local/tz_info/parser.rs:fn seek_after -/
+theorem callee_src_offset_local_tz_info_parser_rs_fn_seek_after : C18_callee_src_offset_local_tz_info_parser_rs_fn_seek_after =
+    ["&", "self", "v1", "usize", "->", "Result", "<", "usize", "v2", "Error", ">", "if", "v1", "<", "self", "v3", "return", "Err(", "v2", "Error", "from(", "ErrorKind", "UnexpectedEof", "match", "self", "v4", "get(", "v1", "-", "self", "v3", "..", "Some(", "v4", "=>", "self", "v4", "v4", "self", "v3", "v1", "Ok(", "v1", "v5", "=>", "Err(", "v2", "Error", "from(", "ErrorKind", "UnexpectedEof"] := by decide +kernel
+
+/-- callee src/offset/local/tz_info/rule.rs:fn from_tz_string -/
+theorem callee_src_offset_local_tz_info_rule_rs_fn_from_tz_string : C18_callee_src_offset_local_tz_info_rule_rs_fn_from_tz_string =
+    ["v1", "&", "u8", "v2", "bool", "->", "Result", "<", "Self", "Error", ">", "v3", "Cursor", "new(", "v1", "v4", "Some(", "parse_name(", "&", "v3", "?", "v5", "parse_offset(", "&", "v3", "?", "if", "v3", "is_empty(", "return", "Ok(", "LocalTimeType", "new(", "-", "v5", "false", "v4", "?", "into(", "v6", "Some(", "parse_name(", "&", "v3", "?", "v7", "match", "v3", "peek(", "Some(", "&", "b','", "=>", "v5", "-", "3600", "Some(", "v8", "=>", "parse_offset(", "&", "v3", "?", "None", "=>", "return", "Err(", "Error", "UnsupportedTzString(", "\"…\"", "if", "v3", "is_empty(", "return", "Err(", "Error", "UnsupportedTzString(", "\"…\"", "v3", "read_tag(", "b\",\"", "?", "let(", "v9", "v10", "RuleDay", "parse(", "&", "v3", "v2", "?", "v3", "read_tag(", "b\",\"", "?", "let(", "v11", "v12", "RuleDay", "parse(", "&", "v3", "v2", "?", "if", "!", "v3", "is_empty(", "return", "Err(", "Error", "InvalidTzString(", "\"…\"", "Ok(", "AlternateTime", "new(", "LocalTimeType", "new(", "-", "v5", "false", "v4", "?", "LocalTimeType", "new(", "-", "v7", "true", "v6", "?", "v9", "v10", "v11", "v12", "?", "into("] := by decide +kernel
+
+/-- callee src/offset/local/tz_info/rule.rs:fn parse_hhmmss -/
+theorem callee_src_offset_local_tz_info_rule_rs_fn_parse_hhmmss : C18_callee_src_offset_local_tz_info_rule_rs_fn_parse_hhmmss =
+    ["v1", "&", "Cursor", "->", "Result", "<", "i32", "i32", "i32", "Error", ">", "v2", "v1", "read_int(", "?", "v3", "0", "v4", "0", "if", "v1", "read_optional_tag(", "b\":\"", "?", "v3", "v1", "read_int(", "?", "if", "v1", "read_optional_tag(", "b\":\"", "?", "v4", "v1", "read_int(", "?", "Ok(", "v2", "v3", "v4"] := by decide +kernel
+
+/-- callee src/offset/local/tz_info/rule.rs:fn parse_name -/
+theorem callee_src_offset_local_tz_info_rule_rs_fn_parse_name : C18_callee_src_offset_local_tz_info_rule_rs_fn_parse_name =
+    ["<", ">", "v1", "&", "Cursor", "<", ">", "->", "Result", "<", "&", "u8", "Error", ">", "match", "v1", "peek(", "Some(", "b'<'", "=>", "v2", "=>", "return", "Ok(", "v1", "read_while(", "u8", "v3", "?", "v1", "read_exact(", "1", "?", "v4", "v1", "read_until(", "|", "&", "v5", "|", "v5", "==", "b'>'", "?", "v1", "read_exact(", "1", "?", "Ok(", "v4"] := by decide +kernel
+
+/-- callee src/offset/local/tz_info/rule.rs:fn parse_offset -/
+theorem callee_src_offset_local_tz_info_rule_rs_fn_parse_offset : C18_callee_src_offset_local_tz_info_rule_rs_fn_parse_offset =
+    ["v1", "&", "Cursor", "->", "Result", "<", "i32", "Error", ">", "let(", "v2", "v3", "v4", "v5", "parse_signed_hhmmss(", "v1", "?", "if!(", "0", "..=", "24", "contains(", "&", "v3", "return", "Err(", "Error", "InvalidTzString(", "\"…\"", "if!(", "0", "..=", "59", "contains(", "&", "v4", "return", "Err(", "Error", "InvalidTzString(", "\"…\"", "if!(", "0", "..=", "59", "contains(", "&", "v5", "return", "Err(", "Error", "InvalidTzString(", "\"…\"", "Ok(", "v2", "*", "v3", "*", "3600", "+", "v4", "*", "60", "+", "v5"] := by decide +kernel
+
+/-- callee src/offset/local/tz_info/rule.rs:fn parse_signed_hhmmss -/
+theorem callee_src_offset_local_tz_info_rule_rs_fn_parse_signed_hhmmss : C18_callee_src_offset_local_tz_info_rule_rs_fn_parse_signed_hhmmss =
+    ["v1", "&", "Cursor", "->", "Result", "<", "i32", "i32", "i32", "i32", "Error", ">", "v2", "1", "if", "Some(", "&", "v3", "v1", "peek(", "if", "v3", "==", "b'+'", "||", "v3", "==", "b'-'", "v1", "read_exact(", "1", "?", "if", "v3", "==", "b'-'", "v2", "-", "1", "let(", "v4", "v5", "v6", "parse_hhmmss(", "v1", "?", "Ok(", "v2", "v4", "v5", "v6"] := by decide +kernel
+
+/-- callee src/offset/local/tz_info/timezone.rs:fn find_ohos_tz_data -/
+theorem callee_src_offset_local_tz_info_timezone_rs_fn_find_ohos_tz_data : C18_callee_src_offset_local_tz_info_timezone_rs_fn_find_ohos_tz_data =
+    ["v1", "&", "str", "->", "Result", "<", "Vec", "<", "u8", ">", "Error", ">", "TZDATA_PATH", "&", "str", "\"…\"", "match", "File", "open(", "TZDATA_PATH", "Ok(", "v2", "=>", "from_tzdata_file(", "&", "v2", "v1", "Err(", "v3", "=>", "Err(", "v3", "into("] := by decide +kernel
+
+/-- callee src/offset/local/tz_info/timezone.rs:fn from_file -/
+theorem callee_src_offset_local_tz_info_timezone_rs_fn_from_file : C18_callee_src_offset_local_tz_info_timezone_rs_fn_from_file =
+    ["v1", "&", "File", "->", "Result", "<", "Self", "Error", ">", "v2", "Vec", "new(", "v1", "read_to_end(", "&", "v2", "?", "Self", "from_tz_data(", "&", "v2"] := by decide +kernel
+
+/-- callee src/offset/local/tz_info/timezone.rs:fn from_tz_data -/
+theorem callee_src_offset_local_tz_info_timezone_rs_fn_from_tz_data : C18_callee_src_offset_local_tz_info_timezone_rs_fn_from_tz_data =
+    ["v1", "&", "u8", "->", "Result", "<", "Self", "Error", ">", "v2", "parse(", "v1"] := by decide +kernel
+
+/-- callee src/offset/local/tz_info/timezone.rs:fn from_tzdata_bytes -/
+theorem callee_src_offset_local_tz_info_timezone_rs_fn_from_tzdata_bytes : C18_callee_src_offset_local_tz_info_timezone_rs_fn_from_tzdata_bytes =
+    ["v1", "&", "Vec", "<", "u8", ">", "v2", "&", "str", "->", "Result", "<", "Vec", "<", "u8", ">", "Error", ">", "VERSION_SIZE", "usize", "12", "OFFSET_SIZE", "usize", "4", "INDEX_CHUNK_SIZE", "usize", "48", "ZONENAME_SIZE", "usize", "40", "v3", "Cursor", "new(", "&", "v1", "v4", "v3", "read_exact(", "VERSION_SIZE", "?", "v5", "v3", "read_be_u32(", "?", "v6", "v3", "read_be_u32(", "?", "v4", "v3", "read_be_u32(", "?", "v3", "seek_after(", "v5", "as", "usize", "?", "v7", "v5", "while", "v7", "<", "v6", "v8", "v3", "read_exact(", "ZONENAME_SIZE", "?", "v9", "v3", "read_be_u32(", "?", "v10", "v3", "read_be_u32(", "?", "v11", "str", "from_utf8(", "v8", "?", "trim_end_matches(", "'\\0'", "if", "v11", "!=", "v2", "v7", "+=", "INDEX_CHUNK_SIZE", "as", "u32", "continue", "v3", "seek_after(", "v6", "+", "v9", "as", "usize", "?", "return", "match", "v3", "read_exact(", "v10", "as", "usize", "Ok(", "v12", "=>", "Ok(", "v12", "to_vec(", "Err(", "v13", "=>", "Err(", "Error", "InvalidTzFile(", "\"…\"", "Err(", "Error", "InvalidTzString(", "\"…\""] := by decide +kernel
+
+/-- callee src/offset/local/tz_info/timezone.rs:fn from_tzdata_file -/
+theorem callee_src_offset_local_tz_info_timezone_rs_fn_from_tzdata_file : C18_callee_src_offset_local_tz_info_timezone_rs_fn_from_tzdata_file =
+    ["v1", "&", "File", "v2", "&", "str", "->", "Result", "<", "Vec", "<", "u8", ">", "Error", ">", "v3", "Vec", "new(", "v1", "read_to_end(", "&", "v3", "?", "from_tzdata_bytes(", "&", "v3", "v2"] := by decide +kernel
+
+/-- callee src/offset/local/tz_info/timezone.rs:fn utc -/
+theorem callee_src_offset_local_tz_info_timezone_rs_fn_utc : C18_callee_src_offset_local_tz_info_timezone_rs_fn_utc =
+    ["->", "Self", "Self", "v1", "Vec", "new(", "v2", "v3", "!", "LocalTimeType", "UTC", "v4", "Vec", "new(", "v5", "None"] := by decide +kernel
+
 end Chrono.Pins.C18
